@@ -158,6 +158,17 @@ def gen_spd(rng, d):
     A = [[sum(W[i][k] * W[j][k] for k in range(d)) / 16.0 for j in range(d)] for i in range(d)]
     for i in range(d):
         A[i][i] += 0.75 + 0.5 * i
+    # round 2: ENFORCE the eigenvalue separation (no extra random draws: all other cases of a seed stay the same).
+    # At exactly repeated eigenvalues (e.g. [[1.3125, 0], [0, 1.3125]], thorough seed 2) jax's derivative of `eigh` --
+    # hence of the library's logm-based transformation -- is NaN; see design.d/C12.md "round 2", observation.
+    if d > 1:
+        import numpy as np
+        for _ in range(8):
+            ev = np.linalg.eigvalsh(np.array(A))
+            if np.min(np.diff(ev)) >= 0.125:
+                break
+            for i in range(d):
+                A[i][i] += 0.25 * (i + 1) * (i % 2 * 2 - 1 if d > 2 else i)
     return [A[i][j] for i in range(d) for j in range(d)]
 
 
